@@ -233,13 +233,39 @@ func (f *Frame) exprText(v ssa.Value) string {
 
 // run encodes the body. heap is the entry heap, reach the entry condition.
 func (f *Frame) run(reach string, heap *Heap) {
+	f.entry = heap.clone()
+	f.runRegion(reach, heap, nil)
+}
+
+// region restricts an encoding to part of a function's CFG: the blocks of one
+// loop body, entered at `entry`; edges to `header` end the region normally
+// (one iteration completed), edges to blocks outside it are exits.
+type region struct {
+	blocks map[int]bool
+	entry  *ssa.BasicBlock
+	header *ssa.BasicBlock
+	ends   []regionEdge
+	exits  []regionEdge
+}
+
+type regionEdge struct {
+	from *ssa.BasicBlock
+	to   *ssa.BasicBlock
+	cond string
+	heap *Heap
+}
+
+// runRegion encodes the whole function (rg == nil) or one region of it.
+func (f *Frame) runRegion(reach string, heap *Heap, rg *region) {
 	e := f.e
 	fn := f.fn
-	f.entry = heap.clone()
 	order := topoOrder(fn)
 	done := map[int]bool{}
 	for _, b := range order {
 		if fn.Recover != nil && b == fn.Recover {
+			continue
+		}
+		if rg != nil && (!rg.blocks[b.Index] || b == rg.header) {
 			continue
 		}
 		f.curBlock = b
@@ -247,13 +273,18 @@ func (f *Frame) run(reach string, heap *Heap) {
 		var heaps []*Heap
 		var preds []*ssa.BasicBlock
 		li := f.loops[b.Index]
-		if b.Index == 0 {
+		isEntry := (rg == nil && b.Index == 0) || (rg != nil && b == rg.entry)
+		if isEntry {
 			conds = []string{reach}
 			heaps = []*Heap{heap}
 			preds = []*ssa.BasicBlock{nil}
-		} else {
+		}
+		if !isEntry || rg != nil {
 			for _, p := range b.Preds {
 				if isBackEdge(p, b) || !done[p.Index] {
+					continue
+				}
+				if rg != nil && p == rg.header {
 					continue
 				}
 				conds = append(conds, f.edgeCond[[2]int{p.Index, b.Index}])
@@ -300,6 +331,14 @@ func (f *Frame) run(reach string, heap *Heap) {
 			}
 			ec := e.define("E!"+f.prefix, "Bool", c)
 			f.edgeCond[[2]int{b.Index, s.Index}] = ec
+			if rg != nil && s == rg.header {
+				rg.ends = append(rg.ends, regionEdge{from: b, to: s, cond: ec, heap: f.heap})
+				continue
+			}
+			if rg != nil && !rg.blocks[s.Index] {
+				rg.exits = append(rg.exits, regionEdge{from: b, to: s, cond: ec, heap: f.heap})
+				continue
+			}
 			if isBackEdge(b, s) {
 				f.backEdge(f.loops[s.Index], b, ec)
 			}
@@ -508,6 +547,7 @@ func (f *Frame) enterLoop(li *LoopInfo, preds []*ssa.BasicBlock, conds []string)
 	if len(li.spec.Decreases) == 0 && !li.spec.NoTerm {
 		f.inferVariant(li)
 	}
+	f.orderCheck(li)
 }
 
 // inferVariant derives candidate variants from the loop's exit tests
